@@ -225,8 +225,12 @@ func JudgeStatements(w *World) *Verdict {
 			// at most once, per commit and per cycle
 			per := map[string]int{}
 			bindFailed := false
+			evictFailed := map[string]bool{}
 			for _, c := range window {
 				per[c.Kind+" "+c.Pod]++
+				if c.Kind == "evict" && c.Err != "" {
+					evictFailed[c.Pod] = true
+				}
 				if c.Kind == "bind" && c.Err != "" {
 					bindFailed = true
 				}
@@ -278,6 +282,10 @@ func JudgeStatements(w *World) *Verdict {
 				if bindFailed && !same {
 					// Commit stops at a failed bind: what follows it is not emitted
 					continue
+				}
+				if evictFailed[name] {
+					// the pod could not be evicted: it stays where it is, its re-placement is dropped
+					wantBind, wantPipe = 0, 0
 				}
 				for _, chk := range []struct {
 					kind string
@@ -338,6 +346,16 @@ func JudgeStatements(w *World) *Verdict {
 	}
 	if facts.Foreign > 0 {
 		v.Classes = append(v.Classes, "interleaved-statements-skipped")
+	}
+	if w.HasDRA() {
+		v.Classes = append(v.Classes, "world-with-dra")
+		for _, rec := range h.Cycles {
+			for _, c := range rec.Calls {
+				if len(c.Claims) > 0 {
+					v.Classes = append(v.Classes, "call-for-pod-with-claim:"+c.Kind)
+				}
+			}
+		}
 	}
 	v.Classes = append(v.Classes, "statements:"+bucket(facts.Statements))
 	v.Nontrivial = facts.DiscardsCompared+facts.RollbacksCompared > 0 && facts.CommitsJudged > 0
